@@ -12,14 +12,16 @@ ALL = ["C%02d" % i for i in range(1, 19)]
 
 _CHAN_NOTE = ("Trusts the vsim model of mutex/condition/join (POSIX semantics, sequential consistency, no spurious wake-ups), the "
               "behavioural ledger in harness/chan/chan.cpp (reads no field of struct channel) and AddressSanitizer. Interleavings are explored "
-              "at channel-call granularity plus an explicit pause between the writer's wait-condition check and its sleep; "
-              "abort_write+write_unmap is one writer step (as in source.c); a mapped reader never maps again.")
+              "at channel-call granularity plus two explicit pauses of the writer inside write_map: before its first lock call, and between its "
+              "wait-condition check and its sleep; abort_write+write_unmap is one writer step (as in source.c); a mapped reader maps again only "
+              "in the shape the runtime can reach (it holds everything committed; refused; then unmap(0)).")
 
-_RT_NOTE = ("Trusts the vsim model (POSIX mutex/condition/join semantics, sequential consistency, scheduling points at platform calls and at "
-            "every 4th consecutive clock read; no spurious wake-ups), the scripted mock devices (harness/rt/vmock.cpp) and the client grammar "
+_RT_NOTE = ("Trusts the vsim model (POSIX mutex/condition/join semantics, sequential consistency, scheduling points at platform calls, at "
+            "every 4th consecutive clock read and - in about a quarter of the cases - at generated basic-block edges of the runtime/HAL/property "
+            "code (trace-pc-guard); no spurious wake-ups), the scripted mock devices (harness/rt/vmock.cpp) and the client grammar "
             "(tier A: configure only while not running, MAP never on a mapped reader, whole-frame consumption, stop only for finite "
             "acquisitions - documented back-pressure makes the other programs hang by design). Rings hold 1.1-8 frames instead of 1 GiB "
-            "(sink.c/filter.c compiled with channel_new renamed). Races inside one basic block and weak-memory effects are not explored.")
+            "(sink.c/filter.c compiled with channel_new renamed). Weak-memory effects and preemption inside one basic block are not explored.")
 
 
 def _rt(text, technique, ref):
@@ -115,8 +117,8 @@ CHECKS = {
         "level": "exploration",
         "text": "The shipped raw device is opened through the real driver table and driven through the HAL storage API with generated "
                 "frame-size sequences, packet groupings, URI spellings (plain/file://, relative/absolute), short-write and zero-length-write "
-                "patterns injected under platform.c's pwrite, and repeated set/start/append/stop cycles on one device (fresh path per "
-                "acquisition, as the statement restricts). After every acquisition in which start and all appends reported success the file is "
+                "patterns injected under platform.c's pwrite, repeated set/start/append/stop cycles on one device (fresh path per "
+                "acquisition, as the statement restricts), and a second device pointed at the running device's file (refused by the lock; must be harmless). After every acquisition in which start and all appends reported success the file is "
                 "read back and must equal the concatenation of the appended packets byte for byte.",
         "note": "Trusts the vfd interposition (open/close/pwrite/flock of platform.c renamed), the scratch file system (/dev/shm), and the "
                 "generator's frame builder. Acquisitions during which the platform layer reported a failure to the device are not judged here (C16).",
@@ -174,8 +176,8 @@ CHECKS = {
                 "frame trigger enabled deliveries never exceed the triggers issued in that run, first id < triggers, and in lock-step "
                 "(trigger, frame, trigger, frame ...) ids are exactly 0,1,2,...; stop returning and pending frame calls returning are decided by the "
                 "scheduler's deadlock detector, not by a timeout; no camera thread survives stop.",
-        "note": "Trusts the vsim model (sequential consistency, scheduling points at platform calls only: races between plain flag accesses inside "
-                "one basic block are not explored). Triggers are counted when the call starts. In runs where caller A makes frame calls, B does not, "
+        "note": "Trusts the vsim model (sequential consistency; scheduling points at platform calls and, in about a quarter of the cases, at "
+                "generated basic-block edges of simulated.camera.c and the HAL camera.c). Triggers are counted when the call starts. In runs where caller A makes frame calls, B does not, "
                 "so that B (the only one who triggers/stops) cannot starve itself.",
         "technique": "property-based testing over generated schedules (deterministic scheduler, PCT/walk) with history invariants and deadlock detection",
         "design_ref": "DESIGN.md section 3, harness simcam, C18",
@@ -214,11 +216,14 @@ CHECKS = {
         "text": "Generated init/set/copy/destroy sequences over three StorageProperties objects (rapidcheck tapes, libFuzzer in the "
                 "thorough tier) are executed against the real props/storage.c and compared after every step with a C++ value model; "
                 "an allocation ledger (malloc/realloc/free of that file interposed) decides 'each allocation released exactly once', "
-                "'no memory shared between objects' and 'source untouched'. Exploration is the right level: the property quantifies "
+                "'no memory shared between objects' and 'source untouched'. One-shot allocation failures (the n-th malloc/realloc from now "
+                "returns NULL) are injected into arbitrary calls; an object hit by a failed call must stay structurally valid (owned, "
+                "NUL-terminated strings within their blocks), nothing may leak and destroy must release everything. Exploration is the right level: the property quantifies "
                 "over unbounded call sequences and strings, which sampling with shrinking covers densely but cannot exhaust.",
         "note": "Trusts the value model in harness/props/props.cpp (stored value = input bytes with the last byte forced to NUL, "
                 "NULL/empty input -> \"\"), clang AddressSanitizer, and that callers zero an object after destroy before reusing it. "
-                "Dimension names are always NUL-terminated (documented C string); realloc is modelled as always moving.",
+                "Dimension names are always NUL-terminated (documented C string); realloc is modelled as always moving. After an "
+                "injected allocation failure the field values of the object concerned are not judged until it is destroyed or completely overwritten by a copy.",
         "technique": "property-based testing (rapidcheck stateful tapes vs. reference model + allocation ledger); libFuzzer on the same target",
         "design_ref": "DESIGN.md section 3, harness props",
     },
